@@ -1,5 +1,5 @@
 (* Entry points evaluated by the correspondence harness (props/C20.py). *)
-From PV Require Export C20.Check.
+From PV Require Export C20.Check C20.Loop.
 From PV Require Import Gen.C20_Tables.
 
 Definition jstr (s : string) : jv := JB (bs s).
@@ -160,3 +160,12 @@ Definition run_sysfields (p : plat) (fn : string) : jv :=
   JL [ match find (fun r => plat_eqb (sf_plat r) p && String.eqb (sf_fn r) fn) sysfield_rows with
        | Some r => JL (map jstr (sf_fields r)) | None => JC "NoRow" [] end;
        JL (map jstr (doc_sys_fields p fn)) ].
+
+(* list-then-read loop of _pssunos.Process (C20/Loop.v): per-item outcome list, answer of the liveness probe *)
+Definition jv_ritem (r : ritem) : jv :=
+  match r with Read i => JC "Read" [JZ (Z.of_nat i)] | Unres i => JC "Unres" [JZ (Z.of_nat i)] end.
+Definition jv_lres (pid : Z) (r : lres) : jv :=
+  match r with LList l => JC "List" [JL (map jv_ritem l)] | LExc r' => jv_res pid r' end.
+Definition run_loop (m : lmeth) (outs : list iout) (stat : option err) (s : pstate) (pid : Z) : jv :=
+  let z := pid =? 0 in
+  JL [ jv_lres pid (loop_outcome m outs stat s z); JL (map (jv_lres pid) (loop_allowed m outs stat s z)) ].
